@@ -243,10 +243,14 @@ def lz4Encode (b : BlockCodec) (data : Bytes) : Except Unit Bytes :=
 def lz4Prefix (data : Bytes) : Nat :=
   readBE32 (data.getD 0 0) (data.getD 1 0) (data.getD 2 0) (data.getD 3 0)
 
+/-- lz4/lz4.go Decode AFTER the repair of KF-C18-1: the number of bytes the block decoder produced is
+    compared with the 4-byte prefix -/
 def lz4Decode (b : BlockCodec) (data : Bytes) : Except Unit Bytes :=
   if data.length < 4 then .error ()
   else if lz4Prefix data = 0 then .ok []
-  else b.decB (data.drop 4) (lz4Prefix data)
+  else match b.decB (data.drop 4) (lz4Prefix data) with
+    | .error e => .error e
+    | .ok out => if out.length = lz4Prefix data then .ok out else .error ()
 
 def lz4 (b : BlockCodec) : Codec := { enc := lz4Encode b, dec := lz4Decode b }
 
